@@ -300,11 +300,21 @@ func (w *World) zero(t types.Type) string {
 		}
 	}
 	if a, ok := t.Underlying().(*types.Array); ok {
-		return fmt.Sprintf("((as const %s) %s)", s, w.zero(a.Elem()))
+		return w.constArray(s, w.sortOf(a.Elem()), w.zero(a.Elem()))
 	}
 	z := quote("zero:" + w.typeStr(t))
 	w.declFun(z, nil, s)
 	return z
+}
+
+// constArray: an array holding v everywhere. cvc5 only accepts value arguments for (as const ...), so for
+// element sorts without literals a fresh, unconstrained array is used instead (over-approximation).
+func (w *World) constArray(arrSort, elemSort, v string) string {
+	switch elemSort {
+	case "Bool", "Int", F64, F32:
+		return fmt.Sprintf("((as const %s) %s)", arrSort, v)
+	}
+	return w.newConst("zeroarr", arrSort)
 }
 
 func (w *World) strLit(s string) string {
